@@ -165,6 +165,7 @@ def _judge(ctx, pid, scn, events, prints, want):
             if pid not in ("C02", "C08"):
                 continue
             core.add_violation(ctx, pid + "/" + cl, "program %d: %s" % (t, cl), rep)
+        names = {n for n in names if want(n) or n.startswith(("NoResult:", "Loc:"))}
         if names:
             what = "program %d: %s; differences: %s" % (t, sorted(names), json.dumps(rest)[:900])
             core.add_violation(ctx, _sig_of(pid, names), what, rep)
@@ -185,6 +186,12 @@ def check_c02(ctx):
     # REST path trees: 0..7 inherited path variables, then sibling sub-paths with a variable and a method each
     trees = core.generate(ctx, "RestTreeGen", "GenRestTree.cfg", timeout=600)
     scn = scn + [{"id": len(scn) + i + 1, "decls": t["decls"], "seed": ctx.seed, "variants": 0, "text": False} for i, t in enumerate(trees)]
+    # programs with re-opened types in which a later block declares an earlier field again, with another type
+    _, redecl, _ = split_scenarios(ctx, 30 if ctx.quick() else 400, 23, 1)
+    nredecl = with_redeclared_fields(redecl, vary=True)
+    for s in redecl:
+        s["id"] += len(scn)
+    scn = scn + redecl
     events, prints, nev = run_programs(ctx, scn)
     _judge(ctx, "C02", scn, events, prints,
            lambda n: n.startswith(("Missing:", "Spurious:")) or n in ("Rejected", "IllFormedProgram"))
@@ -198,7 +205,7 @@ def check_c02(ctx):
     cov = {"states": mc.distinct, "transitions": mc.generated, "traces_validated_against_impl": len(scn),
            "trace_events": nev, "declarations": sum(len(s["decls"]) for s in scn),
            "distinct_declaration_kind_x_scope": nk, "distinct_type_shapes": ns, "programs_given_a_namesake_application": nadded,
-           "programs_with_linter_warnings_compared": len(calls), "rest_path_trees": len(trees), "linter_warnings": sum(len(e.get("warnings", [])) for e in events if e["e"] == "lint"),
+           "programs_with_linter_warnings_compared": len(calls), "rest_path_trees": len(trees), "fields_declared_again_with_another_type": nredecl, "linter_warnings": sum(len(e.get("warnings", [])) for e in events if e["e"] == "lint"),
            "samples": [{"decls": scn[0]["decls"][:12]}] if scn else []}
     return core.finish(ctx, "model_checking", cov, ASSUME)
 
@@ -223,9 +230,11 @@ def with_namesake_app(scn):
     return n
 
 
-def with_redeclared_fields(scn):
+def with_redeclared_fields(scn, vary=False):
     """A later block of a re-opened tuple or table declares one of the type's earlier fields again, with the same
-    type (a wrapped one if there is one): the model is unchanged and the field has one more location."""
+    type (a wrapped one if there is one): the model is unchanged and the field has one more location.  With `vary` the
+    later declaration takes the type of another field declared earlier in the same application: the later type is the
+    field's type (StepField in Frontend.tla)."""
     import copy
     opens = ("app", "type", "ep", "event", "sub", "rest", "method", "block", "oneof", "choice")
     n = 0
@@ -242,8 +251,16 @@ def with_redeclared_fields(scn):
                 prev = seen.get(key) or []
                 if prev and x.get("kind") in ("tuple", "relation"):
                     cand = [f for f in prev if f["sh"].get("wrap")] or prev
+                    if vary:
+                        # prefer an earlier declaration that has something to leave behind: optional, sized, or a sized integer kind
+                        cand = [f for f in prev if not f.get("pk") and (f["sh"].get("opt") or f["sh"].get("size") or f["sh"].get("p") in ("int32", "int64", "float32", "float64"))] or cand
                     again = copy.deepcopy(cand[0])
                     again["pos"] = {"file": "", "line": 0, "col": 0}
+                    if vary and not again.get("pk"):
+                        others = [f for key2, fs in seen.items() if key2[0] == cur_app for f in fs
+                                  if f["sh"] != again["sh"] and not f.get("pk")]
+                        if others:
+                            again["sh"] = copy.deepcopy(others[n % len(others)]["sh"])
                     out.append(again)
                     n += 1
             elif k in opens:
@@ -261,7 +278,7 @@ def check_c08(ctx):
     mc = _mc(ctx)
     scn = programs(ctx, 250 if ctx.quick() else 3000, seed_off=8)
     # multi-file: the same partitions as C04 (re-opened applications and types in imported files)
-    _, scn2, _ = split_scenarios(ctx, 40 if ctx.quick() else 600, 9, 3)
+    _, scn2, _ = split_scenarios(ctx, 40 if ctx.quick() else 600, 9, 4)
     for s in scn2:
         s["id"] += len(scn)
     scn = scn + scn2
@@ -364,22 +381,19 @@ def split_blocks(decls):
     return blocks
 
 
-def apply_plan(decls, plan, chain):
-    """Distributes the top-level blocks over main.sysl / part1.sysl / part2.sysl; returns the
-    declaration sequence in the order the compiler processes it (root first, then its imports)."""
+FILE_NAMES = ["main.sysl", "part1.sysl", "part2.sysl", "part3.sysl"]
+
+
+def apply_plan(decls, plan):
+    """Distributes the top-level blocks over main.sysl / part1..3.sysl in the plan's import graph; returns the declaration
+    sequence in the order the spec says the compiler processes the files (plan["order"], see FileOrder in FrontendGen.tla)."""
     blocks = split_blocks(decls)
-    names = ["main.sysl", "part1.sysl", "part2.sysl"]
-    used = sorted(set(plan) | {0})
     out = []
-    for f in used:
-        out.append({"k": "file", "name": names[f]})
-        if chain:
-            nxt = [g for g in used if g > f][:1]
-        else:
-            nxt = [g for g in used if g > 0] if f == 0 else []
-        for g in nxt:
-            out.append({"k": "import", "name": names[g][:-5]})
-        for b, pf in zip(blocks, plan):
+    for f in plan["order"]:
+        out.append({"k": "file", "name": FILE_NAMES[f]})
+        for g in plan["imports"][f]:
+            out.append({"k": "import", "name": FILE_NAMES[g][:-5]})
+        for b, pf in zip(blocks, plan["files"]):
             if pf == f:
                 out.extend(b)
     return out
@@ -391,11 +405,15 @@ def split_scenarios(ctx, n, seed_off, maxplans):
     scn, group = [], {}
     for gi, g in enumerate(gen):
         nb = len(split_blocks(g["decls"]))
-        plans = [[0] * nb] + [p for p in g["plans"] if any(p)]
+        joined = {"files": [0] * nb, "imports": [[]], "order": [0]}
+        # TLC lists the small graphs first: take the plans with the most files first, so that the graphs in which the
+        # depth-first file order differs from other traversals are among those compiled
+        split = sorted([p for p in g["plans"] if any(p["files"])], key=lambda p: -len(p["order"]))
+        plans = [joined] + split
         plans = plans[:maxplans]
         for pi, plan in enumerate(plans):
             sid = len(scn) + 1
-            scn.append({"id": sid, "decls": apply_plan(g["decls"], plan, chain=(pi % 2 == 1)), "seed": ctx.seed,
+            scn.append({"id": sid, "decls": apply_plan(g["decls"], plan), "seed": ctx.seed,
                         "variants": 0, "text": False, "plan": plan, "program": gi})
             group.setdefault(gi, []).append(sid)
     return gen, scn, group
@@ -429,9 +447,10 @@ def check_c04(ctx):
                                    {"family": "frontend", "scenario": by_id[sid], "joined": by_id[ids[0]]})
     cov = {"states": mc.distinct, "transitions": mc.generated, "traces_validated_against_impl": len(scn),
            "trace_events": nev, "programs": len(gen), "partitions_compiled": nforms,
-           "max_blocks": max((len(s["plan"]) for s in scn), default=0),
+           "max_blocks": max((len(s["plan"]["files"]) for s in scn), default=0),
+           "import_graphs": len({json.dumps(s["plan"]["imports"]) for s in scn}),
            "samples": [{"plan": scn[1]["plan"], "decls": scn[1]["decls"][:10]}] if len(scn) > 1 else []}
     return core.finish(ctx, "model_checking", cov, ASSUME + [
         "partitions move whole top-level blocks (re-opened applications with their types, endpoints, REST trees, events) between "
-        "up to three files in a star or chain import graph; blocks that append to the same statement list keep their relative order",
+        "up to four files in star, chain, nested, diamond and cyclic import graphs (the file order is FileOrder of FrontendGen.tla: depth-first, each file once); blocks that append to the same statement list keep their relative order",
         "fields of one tuple/table are split when the generator re-opens the type in a later block"])
